@@ -75,6 +75,12 @@ def graphs():
                                "rechunk_on_save": {"ma": False, "mb": False}},
                               {"name": "top", "type": "row", "deps": ["ma"], "field": "v1", "save_when": "ALWAYS", "rechunk_on_save": False}],
                   "target": "top", "side": "mb", "mid": "m"}
+    # the target hangs on the SECOND output of the multi-output plugin
+    g["multi_b"] = {"sources": [{"name": "ev", "kind": "ev", "rows": ROWS_EV, "cuts": CUTS}],
+                    "plugins": [{"name": "m", "type": "multi", "deps": ["ev"], "save_when": {"ma": "ALWAYS", "mb": "ALWAYS"},
+                                 "rechunk_on_save": {"ma": False, "mb": False}},
+                                {"name": "top", "type": "row", "deps": ["mb"], "field": "v1", "save_when": "ALWAYS", "rechunk_on_save": False}],
+                    "target": "top", "side": "ma", "mid": "m"}
     g["loop"] = {"sources": [{"name": "ev", "kind": "ev", "rows": ROWS_EV, "cuts": CUTS},
                              {"name": "th", "kind": "th", "rows": ROWS_TH, "cuts": [0, 6, 20]}],
                  "plugins": [{"name": "lp", "type": "loop", "deps": ["ev", "th"], "save_when": "ALWAYS", "rechunk_on_save": False},
@@ -156,7 +162,8 @@ def run_one(gname, g, pos, cfg, chooser=None, real=False):
     spec = {"sources": g["sources"], "plugins": [dict(p) for p in g["plugins"]]}
     if cfg.get("pool"):
         for p in spec["plugins"]:
-            if p["type"] == "row":
+            if p["type"] in ("row", "multi"):
+                # computed in the worker pool: a failing computation reaches the pipeline as a failed future
                 p["parallel"] = "thread"
     out = {"errors": []}
     d = hrun.mktemp("c06-")
